@@ -17,7 +17,7 @@ var All = map[string]func(*Ctx){
 	"C01": seq(C01, (*Ctx).c12OTP, (*Ctx).c12Recovery, (*Ctx).hasherPassThrough, (*Ctx).smsInvariant, func(c *Ctx) {
 		c.flushUnmodified("C01.queue")
 		c.presenceRule("C01.presence")
-	}),
+	}, withExplanation(C05)),
 	"C02": seq(C02, (*Ctx).c12Recovery, (*Ctx).c12SMS, (*Ctx).c01Pending, func(c *Ctx) {
 		c.beforeHandlersIssueNothing("C02.before-no-issue")
 		c.localizeFallback("C02.status-text")
@@ -29,12 +29,14 @@ var All = map[string]func(*Ctx){
 		c.lockEnforced("C04.lock-enforced")
 		c.hasherPassThrough()
 		c.successResets("C04.success-resets")
+		c.utcInstants("C04.utc")
 	}),
 	"C05": seq(C05, func(c *Ctx) {
 		c.moduleCopied("C05.instance")
 		c.secretEntropy("C05.entropy")
+		c.utcInstants("C05.utc")
 	}),
-	"C06": seq(C06, func(c *Ctx) { c.ctxUserFirst("C06.subject") }),
+	"C06": seq(C06, func(c *Ctx) { c.ctxUserFirst("C06.subject") }, withExplanation(C07)),
 	"C07": seq(C07, func(c *Ctx) {
 		c.logoutClear("C07.logout-cookie", "C07.logout-cookie", true)
 		c.rememberRevokeWire("C07.revoke-wire", "C07.revoke")
@@ -49,7 +51,10 @@ var All = map[string]func(*Ctx){
 		c.refusalConfigMapped("C08.refusal-config")
 		c.routeRequirements("C08.route-reqs")
 	}),
-	"C09": seq(C09, (*Ctx).flushDiscipline, func(c *Ctx) { c.flushUnmodified("C09.queue") }),
+	"C09": seq(C09, (*Ctx).flushDiscipline, func(c *Ctx) {
+		c.flushUnmodified("C09.queue")
+		c.noStateAfterWrite("C09.before-write")
+	}),
 	"C10": seq(C10, func(c *Ctx) { c.delAllQueued("C10.delall-queued") }),
 	"C11": seq(C11, func(c *Ctx) {
 		c.noStateAfterWrite("C11.before-write")
@@ -63,7 +68,7 @@ var All = map[string]func(*Ctx){
 		c.localizeFallback("C13.status-text")
 		c.halfAuthUpgradeGated("C13.halfauth-upgrade")
 		c.secretEntropy("C13.entropy")
-	}),
+	}, withExplanation(C09), withExplanation(C10)),
 	"C14": seq(C14, func(c *Ctx) {
 		c.flushUnmodified("C14.queue")
 		c.providerErrors("C14.details-err")
@@ -76,6 +81,11 @@ var All = map[string]func(*Ctx){
 		c.ctxUserFirst("C16.subject")
 		c.vetoesFirst("C16.vetoes-first")
 		c.lockedResponseFixed("C16.locked-response")
+		c.ctxParentIsRequest("C16.ctx-parent")
+		c.beforeHandledHonoured("C16.before-handled")
+		if uls := c.P.FuncOpt("(*ab/lock.Lock).updateLockedState"); uls != nil {
+			c.lockEveryAttempt("C16.every-attempt", uls)
+		}
 		if uls := c.P.FuncOpt("(*ab/lock.Lock).updateLockedState"); uls != nil {
 			c.lockStateStructure(uls)
 		}
